@@ -116,6 +116,7 @@ func c10(c *Ctx) (*report.Result, error) {
 	res.RuleDoc["O10.2"] = "the hand-over returns the permit exactly once: the session's shutdown callback unregisters the mux and allows one more connection; waitAndCleanup cancels, closes session and connection and runs the callback on its single path; NewManagedMuxSession always starts waitAndCleanup"
 	res.RuleDoc["O10.3"] = "who may grow the pool: permits are released only by the connect loop's failure branches (once per acquire), the session callback and the balanced try-acquire of HasConnectionsAvailable; sessions enter the table only through AddConnection"
 	res.RuleDoc["O10.4"] = "owned connection / session: from a successful NewConnection (resp. sessionFn, Accept) every path to the loop head or a return closes the connection (resp. session) or hands it over - also during shutdown"
+	res.RuleDoc["O10.6"] = "the session table's locks cannot wedge their holder: inside a critical section of any mutex of transport/mux, transport/mux/session and transport/grpcutil no call acquires the same (non-reentrant) mutex again, and these mutexes nest in one order"
 	res.RuleDoc["O10.5"] = "shutdown order: onClose waits for the provider, then closes every session of the table under the table lock, then signals; AddConnection tests the lifetime under the same lock"
 
 	loop := connectLoop(c, res)
@@ -130,6 +131,19 @@ func c10(c *Ctx) (*report.Result, error) {
 
 	res.Explanation = "Typestate (must-discharge) analysis on the SSA of the mux connect loop ((*muxProvider).Start's goroutine), multiMuxManager.AddConnection / unregisterMux / onClose, session.NewManagedMuxSession / waitAndCleanup and receivingConnProvider.NewConnection: a held permit, an accepted/dialled connection and a yamux session are resources that must be released, closed or handed over on every CFG path (loads of the captured err cell are forwarded so that 'err != nil' is correlated with the producing call); who-may-call inventory of every semaphore Release / AllowMoreConns / insertion into the session table in shipped code. Decides that no path leaks a permit or a socket and that nothing but the reviewed sites can grow the pool; does not decide that the pool actually returns to full strength (needs the peer and time)."
 	res.Assumptions = []string{"semaphore.Weighted semantics", "yamux.Session.Close / net.Conn.Close release the underlying socket", "a closed yamux session closes its CloseChan (so waitAndCleanup runs)"}
+	{
+		var pk []*ssa.Package
+		for _, rel := range []string{"transport/mux", "transport/mux/session", "transport/grpcutil"} {
+			if sp, err := c.Prog.SSAPkg(rel); err == nil {
+				pk = append(pk, sp)
+			}
+		}
+		n := checkReentrancy(c, res, "O10.6", pk, func(string) bool { return true })
+		res.Analysed["reentrancy_sections"] = n
+		if n < 5 {
+			res.Undec("O10.6", "critical sections of the mux packages", "", fmt.Sprintf("%d sections found", n))
+		}
+	}
 	return res, nil
 }
 
